@@ -3,6 +3,7 @@ package rules
 import (
 	"fmt"
 	"go/token"
+	"go/types"
 	"strings"
 
 	"golang.org/x/tools/go/ssa"
@@ -40,6 +41,8 @@ func checkC07(p *ana.Prog, r *ana.Result) {
 	c07Cap(p, r, hr, tss, tssQ)
 	c07Pair(p, r, hr, ut, tss, tssQ)
 	c07HeapMethods(p, r)
+	c07ArgExtreme(p, r, hr)
+	c07ArgExtreme(p, r, ut)
 }
 
 func c07Consts(p *ana.Prog, r *ana.Result) {
@@ -800,4 +803,145 @@ func c07HeapMethods(p *ana.Prog, r *ana.Result) {
 	} else {
 		r.Violate("C07.pair", ana.FuncName(pop), "pop-last", p.Pos(pop.Pos()), "Pop does not shrink the queue by its last element")
 	}
+}
+
+// c07ArgExtreme: a slot index that tracks an extreme element of a client's
+// buffer (min/max/second max) is updated to the scan index i only under a
+// comparison of element i with the element the tracker itself currently points
+// to. Comparing against a different tracker makes the tracked slot - and the
+// queue rank derived from it - wrong.
+func c07ArgExtreme(p *ana.Prog, r *ana.Result, fn *ssa.Function) {
+	fname := ana.FuncName(fn)
+	cd := ana.ControlDeps(fn)
+	isOrderCall := func(c *ssa.Call) bool {
+		n := ana.CalleeName(&c.Call)
+		return n == ana.Q("(net/ntp.Time64).Before") || n == ana.Q("(net/ntp.Time64).After")
+	}
+	// order calls inside a condition value
+	var callsIn func(v ssa.Value, seen map[ssa.Value]bool, out *[]*ssa.Call)
+	callsIn = func(v ssa.Value, seen map[ssa.Value]bool, out *[]*ssa.Call) {
+		if v == nil || seen[v] {
+			return
+		}
+		seen[v] = true
+		switch x := v.(type) {
+		case *ssa.UnOp:
+			callsIn(x.X, seen, out)
+		case *ssa.Phi:
+			for _, e := range x.Edges {
+				callsIn(e, seen, out)
+			}
+		case *ssa.Call:
+			if isOrderCall(x) {
+				*out = append(*out, x)
+			}
+		}
+	}
+	found := 0
+	for _, b := range fn.Blocks {
+		// loop headers
+		isHeader := false
+		for _, pr := range b.Preds {
+			if b.Dominates(pr) {
+				isHeader = true
+			}
+		}
+		if !isHeader {
+			continue
+		}
+		// the scan index: a header phi whose back-edge value is itself + 1
+		var idx *ssa.Phi
+		for _, in := range b.Instrs {
+			ph, ok := in.(*ssa.Phi)
+			if !ok {
+				break
+			}
+			for i, e := range ph.Edges {
+				if !b.Dominates(b.Preds[i]) {
+					continue
+				}
+				if bo, ok := e.(*ssa.BinOp); ok && bo.Op == token.ADD && bo.X == ssa.Value(ph) {
+					if k, ok := ana.ConstInt(bo.Y); ok && k == 1 {
+						idx = ph
+					}
+				}
+			}
+		}
+		if idx == nil {
+			continue
+		}
+		for _, in := range b.Instrs {
+			m, ok := in.(*ssa.Phi)
+			if !ok {
+				break
+			}
+			if m == idx {
+				continue
+			}
+			if bt, ok := m.Type().Underlying().(*types.Basic); !ok || bt.Info()&types.IsInteger == 0 {
+				continue
+			}
+			// leaves (value, block it comes from) of the tracker's back-edge values
+			type leaf struct {
+				v    ssa.Value
+				from *ssa.BasicBlock
+			}
+			var leaves []leaf
+			seen := map[*ssa.Phi]bool{}
+			var expand func(v ssa.Value, from *ssa.BasicBlock)
+			expand = func(v ssa.Value, from *ssa.BasicBlock) {
+				if ph, ok := v.(*ssa.Phi); ok && ph.Block() != b {
+					if seen[ph] {
+						return
+					}
+					seen[ph] = true
+					for i, e := range ph.Edges {
+						expand(e, ph.Block().Preds[i])
+					}
+					return
+				}
+				leaves = append(leaves, leaf{v, from})
+			}
+			for i, e := range m.Edges {
+				if b.Dominates(b.Preds[i]) {
+					expand(e, b.Preds[i])
+				}
+			}
+			for _, lf := range leaves {
+				if lf.v != ssa.Value(idx) {
+					continue
+				}
+				// the assignment m = i happens on the way into lf.from: its controlling conditions
+				var calls []*ssa.Call
+				for _, e := range cd.Direct(lf.from) {
+					if iff, ok := e.From.Instrs[len(e.From.Instrs)-1].(*ssa.If); ok {
+						callsIn(iff.Cond, map[ssa.Value]bool{}, &calls)
+					}
+				}
+				if len(calls) == 0 {
+					continue // not an order-based tracker (e.g. o = i under an equality)
+				}
+				found++
+				name := m.Comment
+				okAll := true
+				why := ""
+				for _, c := range calls {
+					i0 := indexOfAddrVal(c.Call.Args[0])
+					i1 := indexOfAddrVal(c.Call.Args[1])
+					pair := map[ssa.Value]bool{i0: true, i1: true}
+					if !(pair[ssa.Value(idx)] && pair[ssa.Value(m)]) || i0 == i1 {
+						okAll = false
+						why = fmt.Sprintf("the guard compares buf[%s] with buf[%s]", ana.ValueString(i0), ana.ValueString(i1))
+					}
+				}
+				key := "tracker-compares-with-itself:" + name
+				if okAll {
+					r.Ok("C07.pair", fname, key, posOf(p, calls[0]), "slot tracker `"+name+"` moves to the scan index only when element i compares against the element it currently tracks")
+				} else {
+					r.Violate("C07.pair", fname, key, posOf(p, calls[0]), "slot tracker `"+name+"` is moved to the scan index under a comparison that does not involve the slot it tracks ("+why+"): the slot it ends on is not the extreme it is used as, so the client's queue rank (qval) is set from the wrong exchange")
+				}
+			}
+		}
+	}
+	r.Floor("C07.pair.trackers."+fn.Name(), found, 2)
 }
